@@ -7,6 +7,7 @@ demo=$(ls "$D" | grep '_test.go$' | grep -v pin_v2 | head -1)
 pkg=$(grep -oE '(v2/)?(priority(/simple|/divider|/utils)?|join(/unite)?|limit)/?' "$D/DEMO.md" | head -1 | sed 's#/$##')
 first=$(grep '^+++ b/' "$D/patch.diff" | head -1 | sed 's#+++ b/##')
 [ -z "$pkg" ] && pkg=$(dirname "$first")
+[ -n "$SEED_PKG" ] && pkg=$SEED_PKG
 case "$first" in v2/*) case "$pkg" in v2/*) ;; *) pkg="v2/$pkg";; esac;; esac
 grep -q "^package" "$D/$demo" || { echo "no demo"; exit 2; }
 rx=$(grep -h "^func Test" "$D/$demo" | sed 's/func \(Test[A-Za-z0-9_]*\).*/\1/' | paste -sd'|')
